@@ -50,7 +50,11 @@ def known_pm_whitespace_family(prefix, unit):
 
 def known_aliquot_whitespace_family(prefix, unit):
     """known finding C16-aliquot-whitespace: white space pumped right after an aliquot (aliquot_intervener_remover_regex)"""
-    return bool(unit) and unit.strip() == '' and bool(re.search(r'(½|¼|/4|/2|N2|S2|E2|W2)\s*$', prefix))
+    if not unit or unit.strip() != '' or not re.search(r'(½|¼|/4|/2|N2|S2|E2|W2)\s*$', prefix):
+        return False
+    # runs of blanks / tabs, and runs of line breaks, are collapsed by reduce_whitespace before they reach the aliquot
+    # patterns (fast, and they must stay fast); only white space that survives it belongs to the listed finding
+    return not (set(unit) <= {' ', '\t'} or set(unit) <= {'\n', '\r'})
 
 
 def known_family(prefix, unit):
